@@ -665,7 +665,7 @@ func detGen(g *Gen) {
 	// order-dependent numbering of even two names a chance of 2^-11 to go unnoticed
 	dproc, drun := 3, 4
 	if g.Thorough() {
-		dproc, drun = nproc, nrun
+		dproc, drun = 10, 5
 	}
 	for _, kp := range detDecodePrograms(g, ngen) {
 		emit(kp[0], kp[1], dproc, drun)
